@@ -34,6 +34,9 @@ Theorem C16_refuted_ctor_alias : exists s x, wf KList (items s) /\ incl (items s
   let t := append_q x (ctor_alias s) in In x (shared t) /\ ~ In x (recp t).
 Proof. exact refuted_ctor_alias. Qed.
 
+Theorem C16_refuted_slice_generator : exists s i j vs, wf KList (items s) /\ incl (items s) (rec s) /\ items (setslice_gen i j vs s) <> py_setslice i j vs (items s).
+Proof. exact refuted_slice_generator. Qed.
+
 (* non-vacuity: the three formerly erasing writes, and an assignment with repetitions *)
 Example C16_nonvacuous :
   items (snd (Container.run KList [Assign [2; 1; 0; 1]; AssignSelf; IAug [3]] (init KList []))) = [2; 1; 0; 1; 3] /\
@@ -45,3 +48,4 @@ Print Assumptions C16_constructor.
 Print Assumptions C16_inferences.
 Print Assumptions C16_refuted_extend_self.
 Print Assumptions C16_refuted_ctor_alias.
+Print Assumptions C16_refuted_slice_generator.
